@@ -91,8 +91,20 @@ fn check_foreign_x(items: &[Vec<u8>], utf8: bool, as_name: bool, alt: u8, st: &m
     }
     // the streaming reader decodes local-header names with its own code; the visitor's metadata objects carry
     // central-directory names and comments
-    {
-        let mut cur = Cursor::new(&bytes[..]);
+    // (a stream may hand out fewer bytes than asked for: every 8th batch also goes through one that transfers at most 2 bytes
+    // per read call, so that every name arrives in pieces)
+    struct Pieces<'a>(Cursor<&'a [u8]>, usize);
+    impl<'a> std::io::Read for Pieces<'a> {
+        fn read(&mut self, buf: &mut [u8]) -> std::io::Result<usize> {
+            let n = buf.len().min(self.1);
+            self.0.read(&mut buf[..n])
+        }
+    }
+    for piece in [usize::MAX, 2] {
+        if piece == 2 && (order0 / items.len().max(1) as u64) % 8 != 0 {
+            continue;
+        }
+        let mut cur = Pieces(Cursor::new(&bytes[..]), piece);
         let mut i = 0usize;
         loop {
             let r = guard(|| match zip::read::read_zipfile_from_stream(&mut cur) {
